@@ -331,8 +331,18 @@ func resp3To2(val3 respValue) (value respValue) {
 	switch v := val3.data.(type) {
 	case respSimpleString, respErrorString, respInt, respBulkString:
 		value.data = v
-	case respDouble, respBool, respBigNumber, respVerbatimString:
-		value.data = respSimpleString(fmt.Sprintf("%s", v))
+	case respDouble, respBigNumber:
+		// RESP2 has no numeric type besides the integer: send the decimal text as a bulk string
+		value.data = respBulkString(fmt.Sprintf("%s", v))
+	case respBool:
+		if v {
+			value.data = respInt(1)
+		} else {
+			value.data = respInt(0)
+		}
+	case respVerbatimString:
+		// the text may span lines, which a simple string cannot carry
+		value.data = respBulkString(v.text)
 	case respBlobError:
 		value.data = respErrorString(v.String())
 	case respMap:
